@@ -75,6 +75,18 @@ def _window(ctx, n):
     return int(f), int(t)
 
 
+def _warm_up(ctx, inj, warm, call):
+    """re-use of one injector instance: a previous call on a data set of the *other* container kind (and another
+    width) must not influence the checked call"""
+    if not warm:
+        return
+    other = obj_array([[ctx.real(f"warm{r}_{j}") if j != 2 else 0 for j in range(4)] for r in range(2)])
+    if warm == "frame":
+        other = pd.DataFrame(other, columns=["a", "b", "c", "z"])
+    call(inj, other, 0, 2, (lambda j: ["a", "b", "c", "z"][j]) if warm == "frame" else (lambda j: j))
+    ctx.witness("reused-instance")
+
+
 def _cells(out):
     return out.to_numpy() if isinstance(out, pd.DataFrame) else out
 
@@ -102,14 +114,16 @@ def _untouched(ctx, snapshot, out, f, t, cols):
     ctx.prove(land(*conds), "cells-outside-window-or-columns-unchanged")
 
 
-def body_feature_shift(ctx, n, container, col):
+def body_feature_shift(ctx, n, container, col, warm=None):
     from menelaus.injection import FeatureShiftInjector
 
     data, snap0 = _data(ctx, n, container)
     snapshot = snap0.copy()
     f, t = _window(ctx, n)
     sf, alpha = ctx.real("shift_factor"), ctx.real("alpha")
-    out = FeatureShiftInjector()(data, f, t, _col(container, col), sf, alpha)
+    inj = FeatureShiftInjector()
+    _warm_up(ctx, inj, warm, lambda i, d, a, b, cn: i(d, a, b, cn(col), sf, alpha))
+    out = inj(data, f, t, _col(container, col), sf, alpha)
     _same_container(ctx, data, out, snapshot)
     _untouched(ctx, snapshot, out, f, t, {col})
     o = _cells(out)
@@ -123,13 +137,14 @@ def body_feature_shift(ctx, n, container, col):
     ctx.witness("empty" if t == f else ("full" if (f, t) == (0, n) else "inner"))
 
 
-def body_feature_swap(ctx, n, container, c1, c2):
+def body_feature_swap(ctx, n, container, c1, c2, warm=None):
     from menelaus.injection import FeatureSwapInjector
 
     data, snap0 = _data(ctx, n, container)
     snapshot = snap0.copy()
     f, t = _window(ctx, n)
     inj = FeatureSwapInjector()
+    _warm_up(ctx, inj, warm, lambda i, d, a, b, cn: i(d, a, b, cn(c1), cn(c2)))
     out = inj(data, f, t, _col(container, c1), _col(container, c2))
     _same_container(ctx, data, out, snapshot)
     _untouched(ctx, snapshot, out, f, t, {c1, c2})
@@ -140,7 +155,7 @@ def body_feature_swap(ctx, n, container, c1, c2):
     ctx.witness("empty" if t == f else ("full" if (f, t) == (0, n) else "inner"))
 
 
-def body_label_swap(ctx, n, container, join):
+def body_label_swap(ctx, n, container, join, warm=None):
     from menelaus.injection import LabelSwapInjector, LabelJoinInjector
 
     col = 2
@@ -150,9 +165,13 @@ def body_label_swap(ctx, n, container, join):
     k1, k2 = ctx.int("class_1"), ctx.int("class_2")
     if join:
         new = ctx.int("new_class")
-        out = LabelJoinInjector()(data, f, t, _col(container, col), k1, k2, new)
+        inj = LabelJoinInjector()
+        _warm_up(ctx, inj, warm, lambda i, d, a, b, cn: i(d, a, b, cn(col), k1, k2, new))
+        out = inj(data, f, t, _col(container, col), k1, k2, new)
     else:
-        out = LabelSwapInjector()(data, f, t, _col(container, col), k1, k2)
+        inj = LabelSwapInjector()
+        _warm_up(ctx, inj, warm, lambda i, d, a, b, cn: i(d, a, b, cn(col), k1, k2))
+        out = inj(data, f, t, _col(container, col), k1, k2)
     _same_container(ctx, data, out, snapshot)
     _untouched(ctx, snapshot, out, f, t, {col})
     o = _cells(out)
@@ -169,7 +188,7 @@ def body_label_swap(ctx, n, container, join):
     ctx.witness("empty" if t == f else ("full" if (f, t) == (0, n) else "inner"))
 
 
-def body_noise(ctx, n, container, col):
+def body_noise(ctx, n, container, col, warm=None):
     from menelaus.injection import noise as M
 
     data, snap0 = _data(ctx, n, container)
@@ -183,7 +202,9 @@ def body_noise(ctx, n, container, col):
 
     shim = stubs.NpShim(random=type("R", (), {"choice": staticmethod(choice), "seed": staticmethod(lambda s=None: None)}))
     with rebind(M, np=shim):
-        out = M.BrownianNoiseInjector()(data, f, t, _col(container, col), x0)
+        inj = M.BrownianNoiseInjector()
+        _warm_up(ctx, inj, warm, lambda i, d, a, b, cn: i(d, a, b, cn(col), x0))
+        out = inj(data, f, t, _col(container, col), x0)
     _same_container(ctx, data, out, snapshot)
     _untouched(ctx, snapshot, out, f, t, {col})
     o = _cells(out)
@@ -296,6 +317,15 @@ def jobs(tier):
             for join in (False, True):
                 out.append(Job(f"label{'join' if join else 'swap'}-n{n}-{container}", "checks.c20:body_label_swap",
                                {"n": n, "container": container, "join": join}, expect=exp))
+    # one injector instance re-used across container kinds
+    for container, warm in (("array", "frame"), ("frame", "array")):
+        exp = ("reused-instance", "empty", "full", "inner")
+        out.append(Job(f"shift-reuse-{container}", "checks.c20:body_feature_shift", {"n": 2, "container": container, "col": 0, "warm": warm}, expect=exp))
+        out.append(Job(f"noise-reuse-{container}", "checks.c20:body_noise", {"n": 2, "container": container, "col": 1, "warm": warm}, expect=exp))
+        out.append(Job(f"swap-reuse-{container}", "checks.c20:body_feature_swap", {"n": 2, "container": container, "c1": 0, "c2": 1, "warm": warm}, expect=exp))
+        for join in (False, True):
+            out.append(Job(f"label{'join' if join else 'swap'}-reuse-{container}", "checks.c20:body_label_swap",
+                           {"n": 2, "container": container, "join": join, "warm": warm}, expect=exp))
     label_sets = [[0], [0, 1], [1, 0, 1], [0, 1, 2], [0, 0, 1, 2]] + ([[2, 1, 1, 0, 2]] if not q else [])
     for labels in label_sets:
         n = len(labels)
